@@ -5189,6 +5189,11 @@ class DfaCompileCtx:
             if next_target is None or next_target.is_fallthrough:
                 continue
 
+            # An action that returns to the caller (yield) on the fallthrough does so _before_ the character is consumed, with the start
+            # pointer still on it. Folding it into the consuming transition would report the position one character further on.
+            if any(x.may_return_early() for x in transition.actions):
+                continue
+
             # Are there actions? If so, does this violate the threshold
             if len(next_target.actions) > 0:
                 max_count = ProgramData.option(ProgramOption.MAX_SHORTCIRCUIT_FALLTHROUGH) - ProgramData.option(ProgramOption.MAX_SHORTCIRCUIT_ACTION_PENALTY)*(len(next_target.actions)-1)
